@@ -19,6 +19,9 @@ FIXED = [
  ("C19", "57e41ce", "average() did not compile for one-dimensional groups (1x1 product assigned to a scalar) (C16 too)"),
  ("C02", "462d26a", "SGal3Tangent::exp: small-angle branch of fillE dropped W/6, translation error theta/6*|iota*nu| for all theta<1.49e-7 (C03 log too)"),
  ("C03", "eca1247", "SO3::log small-angle branch ignored the hemisphere: log(-q) = -log(q) for |vec(q)|<1.5e-7, w<0 (also SE3/SE_2_3/SGal3 log, rminus, lminus, between-based results)"),
+ ("C15", "b6df369", "interpolate(CUBIC): Hermite basis h00/h01 swapped, returned B at t=0 and A at t=1"),
+ ("C19", "3f6c3b4", "Jacobian * Tangent (and bracket/Bracket through it) did not compile for Eigen::Map / Map<const> tangents of any group"),
+ ("C19", "a92df0e", "bracket/Bracket on Eigen::Map<const RnTangent> did not compile (traits named a const Map<RnTangent> base)"),
  ("C17", "70af163", "decasteljau: n_segments = floor((N-d)/((d-1)+1)) (misplaced parenthesis): too few windows; unsigned underflow and out-of-bounds reads for closed curves"),
 ]
 def main():
